@@ -71,15 +71,27 @@ type bucketObjectIterator struct {
 	cur      *bucketData
 	seenData bool
 	done     bool
+
+	// didSeek is set when iter has been positioned by Seek: the next call to
+	// Next must yield that position rather than advance past it.
+	didSeek bool
 }
 
+// Seek positions the iterator so that the next call to Next yields the version
+// with the given ID or, if that version no longer exists, the next newer one.
+// It returns false if there is no such version.
 func (b *bucketObjectIterator) Seek(key gofakes3.VersionID) bool {
-	if b.iter.Seek(key) {
-		return true
+	// An object that only has a current version has no iterator:
+	if b.iter != nil {
+		if b.iter.Seek(key) {
+			b.didSeek = true
+			return true
+		}
+		b.iter.Close()
+		b.iter = nil
 	}
 
-	b.iter = nil
-	if b.data != nil && b.data.versionID == key {
+	if b.data != nil && b.data.versionID >= key {
 		return true
 	}
 
@@ -95,7 +107,8 @@ func (b *bucketObjectIterator) Next() bool {
 	}
 
 	if b.iter != nil {
-		iterAlive := b.iter.Next()
+		iterAlive := b.didSeek || b.iter.Next()
+		b.didSeek = false
 		if iterAlive {
 			b.cur = b.iter.Value().(*bucketData)
 			return true
